@@ -6,6 +6,14 @@ function bodies under contract are copied byte for byte.
 from weavelib import WeaveError
 
 
+def modpath(rel):
+    """semantic/type_definition/mod.rs -> semantic::type_definition ; semantic/module.rs -> semantic::module"""
+    r = rel[:-3]
+    if r.endswith("/mod"):
+        r = r[:-4]
+    return r.replace("/", "::")
+
+
 class Ctx:
     """per-weave registry of units (functions under contract) and clauses"""
 
@@ -88,7 +96,7 @@ def fn_into_verus(ctx, fw, qual, mode="V", ret=None, requires=(), ensures=(), de
     """move function `qual` into a verus!{} block and attach its contract.
     requires: list of text; ensures: list of (text, tags) or text; decreases: text"""
     fn = fw.fn(qual)
-    unit = unit or "%s::%s" % (fw.rel[:-3].replace("/mod", "").replace("/", "::"), qual)
+    unit = unit or "%s::%s" % (modpath(fw.rel), qual)
     im = fw._impl_of(fn)
     pre_attrs = "".join("#[%s]\n" % a for a in attrs)
     if mode == "T":
@@ -448,7 +456,7 @@ def from_impl_into_verus(ctx, fw, src_ty, dst_ty, spec_expr, tags=(), trusted=Fa
     fns = [n for n in fw.nodes if n["kind"] == "fn" and fw._impl_of(n) is im]
     if trusted:
         fw.insert(fns[0]["span"][0], "#[verifier::external_body]\n", rule="W3")
-    unit = "%s::<From<%s> for %s>::from" % (fw.rel[:-3].replace("/mod", "").replace("/", "::"), src_ty, dst_ty)
+    unit = "%s::<From<%s> for %s>::from" % (modpath(fw.rel), src_ty, dst_ty)
     ctx.units[unit] = {"unit": unit, "file": fw.rel, "fn": "<From<%s> for %s>::from" % (src_ty, dst_ty), "mode": ("T" if trusted else "V"), "tags": sorted(tags), "span": fns[0]["span"],
                        "line": fw.line_of(fns[0]["span"][0]), "end_line": fw.line_of(fns[0]["span"][1]), "verus_name": None}
 
@@ -498,7 +506,7 @@ def outline(ctx, fw, fnnode, first, last, name, params, args, outs=(), types=(),
             target = (im or top)["span"][1]
         pre = "\nverus!{\n%sfn %s%s(%s) -> (%s: %s)\n" % (pre_attrs, name, generics, params, ret, rty)
         suf = "\n    %s\n}\n} // verus!\n" % tail
-    unit = unit or "%s::%s" % (fw.rel[:-3].replace("/mod", "").replace("/", "::"), name)
+    unit = unit or "%s::%s" % (modpath(fw.rel), name)
     fw.move(s, e, target, pre=pre, suf=suf, rule="W5", what="segment %s of %s" % (name, fw.fn_qualname(fnnode)), left=call)
     utags = set(tags)
     ftags = utags - {"C12"}
@@ -542,7 +550,7 @@ def outline_tail_expr(ctx, fw, fnnode, name, params, args, rtype, mode="V", requ
         top = fw.byid[top["fn"]]
     im = fw._impl_of(top)
     target = (im or top)["span"][1]
-    unit = unit or "%s::%s" % (fw.rel[:-3].replace("/mod", "").replace("/", "::"), name)
+    unit = unit or "%s::%s" % (modpath(fw.rel), name)
     pre = "\nverus!{\n%sfn %s(%s) -> (%s: %s)\n" % ("#[verifier::external_body]\n" if mode == "T" else "", name, params, ret, rtype)
     fw.move(s, e, target, pre=pre, suf="\n}\n} // verus!\n", rule="W5", what="body of %s as %s" % (fw.fn_qualname(fnnode), name), left="%s(%s)" % (name, args))
     utags = set(tags)
@@ -692,7 +700,7 @@ def outline_closure_body(ctx, fw, cnode, name, params, args, rtype, mode="V", re
         top = fw.byid[top["fn"]]
     im = fw._impl_of(top)
     target = (im or top)["span"][1]
-    unit = unit or "%s::%s" % (fw.rel[:-3].replace("/mod", "").replace("/", "::"), name)
+    unit = unit or "%s::%s" % (modpath(fw.rel), name)
     pre = "\nverus!{\n%sfn %s(%s) -> (%s: %s)\n" % ("#[verifier::external_body]\n" if mode == "T" else "", name, params, ret, rtype)
     fw.move(s, e, target, pre=pre, suf="\n}\n} // verus!\n", rule="W5", what="body of a closure in %s as %s" % (fw.fn_qualname(top), name), left=" %s(%s) " % (name, args))
     utags = set(tags)
@@ -739,3 +747,12 @@ def self_reborrow(fw, span):
         a = span[0] + m.start()
         b = span[0] + m.end()
         fw.replace(a, b, "&mut *self" if m.group(1) else "&*self", "W5-R-self-reborrow")
+
+
+def box_as_ref(fw, call_node):
+    """R-std: `b.as_ref()` with `b: &Box<T>` -> `&**b` (the definition of `<Box<T> as AsRef<T>>::as_ref`; the
+    allocator parameter of Box makes the method impossible to name in an assume_specification on stable)"""
+    if call_node["method"] != "as_ref" or call_node["args"]:
+        raise WeaveError("R-box-as-ref: not an .as_ref() call")
+    recv = " ".join(fw.text(call_node["receiver_span"]).split())
+    fw.replace(call_node["span"][0], call_node["span"][1], "&**%s" % recv, "W9-R-box-as-ref")
